@@ -249,6 +249,9 @@ class Run:
         return tuple(self.script[: self.pos])
 
 
+AUX_IDS = {}     # id of an auxiliary premise -> its group
+
+
 class State:
     def __init__(self, run, timeout_ms=2000):
         self.run = run
@@ -264,12 +267,16 @@ class State:
         self.assumed_notes = []
 
     # --- pc
-    def assume(self, f):
+    def assume(self, f, aux=False):
         if isinstance(f, bool):
             f = z3.BoolVal(f)
         if z3.is_true(f):
             return
         self.pc.append(f)
+        if aux:
+            # an auxiliary fact (Contract.aux_ensures / aux_invariants): every obligation is first tried without these
+            # (dropping premises is sound for a proof), then with everything
+            AUX_IDS[f.get_id()] = aux if isinstance(aux, str) else "aux"
         # the feasibility solver only sees quantifier-free facts (dropping premises is sound for pruning:
         # it can only keep more branches alive) -- quantified axioms made every check time out
         if not _has_quantifier(f):
@@ -957,7 +964,15 @@ class Ev:
             return VStr("")
         if len(parts) == 1:
             return VStr(parts[0])
-        return VStr(z3.Concat(*parts))
+        r = z3.Concat(*parts)
+        c = self.frame.root().contract
+        for ch in (getattr(c, "char_hints", None) or ()):
+            # a theorem about single characters, stated as a ground fact so that the solver need not derive it inside a
+            # quantified context: ch occurs in a concatenation iff it occurs in one of the pieces
+            cv = z3.StringVal(ch)
+            self.st.assume(z3.Contains(r, cv) == z3.Or(*[
+                z3.BoolVal(ch in py_string(p)) if z3.is_string_value(p) else z3.Contains(p, cv) for p in parts]))
+        return VStr(r)
 
     def e_FormattedValue(self, node):
         from . import builtins as B
